@@ -602,6 +602,126 @@ Proof.
     apply (write_elem_cells st i _ _ _ W L Hin (repeat_length _ _) j q Hj Hq).
 Qed.
 
+(* ---------------------------------------------------------------- seq[idx] = other_sequence *)
+(* what `data[o1:o1+l1] = src` stores (NumPy broadcasting of a one-row source), None = ValueError *)
+Definition rows_assigned (l1 : nat) (src : list Z) : option (list Z) :=
+  if length src =? l1 then Some src
+  else match src with [v] => Some (repeat v l1) | _ => None end.
+
+Lemma assign_rows_assigned st bid o1 l1 src :
+  assign_rows st bid o1 l1 src =
+  match rows_assigned l1 src with Some e => Ok (write_buf st bid o1 e) | None => Err EValue end.
+Proof.
+  unfold assign_rows, rows_assigned, fill_buf. destruct (length src =? l1); auto.
+  destruct src as [|v [|w src]]; auto.
+Qed.
+
+Lemma rows_assigned_length l1 src e : rows_assigned l1 src = Some e -> length e = l1.
+Proof.
+  unfold rows_assigned. destruct (Nat.eqb_spec (length src) l1).
+  - intros H; inversion H; subst; auto.
+  - destruct src as [|v [|w src]]; try discriminate. intros H; inversion H. apply repeat_length.
+Qed.
+
+(* the value the LAST destination equal to cell c receives (element after element, in order) *)
+Fixpoint last_src (c : nat * nat) (dst src : list (nat * nat)) (R : list Z) : option (list Z) :=
+  match dst, src with
+  | d :: dr, s2 :: sr =>
+    match last_src c dr sr R with
+    | Some v => Some v
+    | None => if pair_eqb c d then rows_assigned (snd d) (slice (fst s2) (snd s2) R) else None
+    end
+  | _, _ => None
+  end.
+(* no element-wise ValueError *)
+Fixpoint compat (dst src : list (nat * nat)) (R : list Z) : Prop :=
+  match dst, src with
+  | d :: dr, s2 :: sr => rows_assigned (snd d) (slice (fst s2) (snd s2) R) <> None /\ compat dr sr R
+  | _, _ => True
+  end.
+
+Lemma assign_seq_cons st bid o1 l1 dr jb o2 l2 sr :
+  assign_seq st bid ((o1, l1) :: dr) jb ((o2, l2) :: sr) =
+  match assign_rows st bid o1 l1 (slice o2 l2 (rows (getbuf (heap st) jb))) with
+  | Ok st1 => assign_seq st1 bid dr jb sr
+  | Err e => (st, Some e)
+  end.
+Proof. reflexivity. Qed.
+
+Lemma assign_seq_cells st0 i jb R : forall dst src st, stable st0 st -> i < length (seqs st0) ->
+  incl dst (pairs (getseq st0 i)) -> jb <> sbuf (getseq st0 i) -> rows_of st jb = R -> compat dst src R ->
+  snd (assign_seq st (sbuf (getseq st0 i)) dst jb src) = None /\
+  stable st0 (fst (assign_seq st (sbuf (getseq st0 i)) dst jb src)) /\
+  forall x q, x < length (seqs st0) -> q < length (offs (getseq st0 x)) ->
+    V (fst (assign_seq st (sbuf (getseq st0 i)) dst jb src)) x q =
+      if sbuf (getseq st0 x) =? sbuf (getseq st0 i)
+      then match last_src (cell st0 x q) dst src R with Some v => v | None => V st x q end
+      else V st x q.
+Proof.
+  induction dst as [|(o1, l1) dst IH]; intros src st HS Hi Hincl Hjb HR HC.
+  - simpl. split; [auto|split; [auto|]]. intros. destruct (_ =? _); reflexivity.
+  - destruct src as [|(o2, l2) src].
+    { simpl. split; [auto|split; [auto|]]. intros. destruct (_ =? _); reflexivity. }
+    simpl in HC. destruct HC as (HC1 & HC2).
+    rewrite assign_seq_cons, assign_rows_assigned.
+    change (rows (getbuf (heap st) jb)) with (rows_of st jb). rewrite HR.
+    cbn [fst snd] in HC1.
+    destruct (rows_assigned l1 (slice o2 l2 R)) as [e|] eqn:ER; [|congruence].
+    pose proof (rows_assigned_length _ _ _ ER) as Le.
+    assert (Hin : In (o1, l1) (pairs (getseq st0 i))) by (apply Hincl; left; auto).
+    assert (Hincl' : incl dst (pairs (getseq st0 i))) by (intros y Hy; apply Hincl; right; auto).
+    pose proof (stable_write st0 st i o1 l1 e HS Hi Hin Le) as HS1.
+    destruct HS as (W & ES & EH).
+    assert (G : forall k, getseq st k = getseq st0 k) by (intros; apply getseq_seqs_eq; auto).
+    assert (Hi' : i < length (seqs st)) by (rewrite ES; auto).
+    pose proof (write_elem_spec st i o1 l1 e W Hi') as WS. rewrite G in WS.
+    destruct (WS Hin Le) as (_ & _ & _ & RO & _).
+    assert (HR1 : rows_of (write_buf st (sbuf (getseq st0 i)) o1 e) jb = R) by (rewrite RO; auto).
+    destruct (IH src _ HS1 Hi Hincl' Hjb HR1 HC2) as (I1 & I2 & I3).
+    split; [exact I1|split; [exact I2|]].
+    intros x q Hx Hq. rewrite (I3 x q Hx Hq).
+    pose proof (write_elem_cells st i o1 l1 e W Hi') as WC. rewrite G in WC.
+    specialize (WC Hin Le). cbv zeta in WC.
+    assert (Hx' : x < length (seqs st)) by (rewrite ES; auto).
+    rewrite WC by (rewrite ?G; auto).
+    unfold is_cell, cell. rewrite !G. fold (cell st0 x q). cbn [last_src fst snd].
+    destruct (sbuf (getseq st0 x) =? sbuf (getseq st0 i)); cbn [andb]; auto.
+    destruct (last_src (cell st0 x q) dst src R); auto.
+    destruct (pair_eqb (cell st0 x q) (o1, l1)); auto. rewrite ER. reflexivity.
+Qed.
+
+(* seq_i[idx] = seq_j with j on another buffer and no element-wise shape error: the value of every
+   element of every object afterwards (a destination listed twice keeps the last source) *)
+Lemma set_idx_seq_cells st i ix j ps : reachable st -> is_live st i = true -> is_live st j = true ->
+  sbuf (getseq st j) <> sbuf (getseq st i) ->
+  positions (length (offs (getseq st i))) ix = Ok ps ->
+  let dst := combine (pick 0 (offs (getseq st i)) ps) (pick 0 (lens (getseq st i)) ps) in
+  let src := pairs (getseq st j) in
+  let R := rows_of st (sbuf (getseq st j)) in
+  length ps = length (offs (getseq st j)) ->
+  sum (pick 0 (lens (getseq st i)) ps) = sum (lens (getseq st j)) ->
+  compat dst src R ->
+  let st' := fst (step st (OSetIdx i ix (VSeq j))) in
+  snd (step st (OSetIdx i ix (VSeq j))) = ROk /\ seqs st' = seqs st /\
+  forall x q, x < length (seqs st) -> q < length (offs (getseq st x)) ->
+    V st' x q = if sbuf (getseq st x) =? sbuf (getseq st i)
+                then match last_src (cell st x q) dst src R with Some v => v | None => V st x q end
+                else V st x q.
+Proof.
+  intros Rch L Lj Hjb P dst src R H1 H2 HC.
+  pose proof (reachable_wf st Rch) as W. cbv zeta. unfold step. rewrite L, Lj, P.
+  apply is_live_lt in L. destruct (wf_seq _ W i L) as (_ & S2 & _).
+  rewrite pick_length, H1, Nat.eqb_refl. cbn [negb]. rewrite H2, Nat.eqb_refl. cbn [negb].
+  apply positions_bound in P.
+  assert (INC : incl dst (pairs (getseq st i))) by (apply incl_pick; auto).
+  destruct (assign_seq_cells st i (sbuf (getseq st j)) R dst src st (stable_refl st W) L INC Hjb eq_refl HC)
+    as (A1 & A2 & A3).
+  fold dst. change (combine (offs (getseq st j)) (lens (getseq st j))) with src.
+  destruct (assign_seq st (sbuf (getseq st i)) dst (sbuf (getseq st j)) src) as [st1 [e|]]; cbn [fst snd] in *;
+    [discriminate|].
+  split; [auto|split; [apply A2|exact A3]].
+Qed.
+
 (* ---------------------------------------------------------------- write-through, as far as it holds *)
 Lemma view_write_through_partial : forall st j ix ps, reachable st -> is_live st j = true ->
   positions (length (offs (getseq st j))) ix = Ok ps ->
